@@ -16,12 +16,14 @@ Full statement / proved / missing
   `UnitSafe` (Unit only as element type of zero-size collections, the shape inferred for empty arrays/hashes), all values:
   `asg false A B → inst B v → inst A v`.
 * `C01_sound_partial` — PROVED, unbounded (strong induction on the summed weight, one lemma per receiver rule): `C01_full`
-  restricted to the fragment `Ty.Frag` = hereditarily no `Type[..]`, no `Iterable[..]`, no `Data`/`RichData` — i.e. for Any, Undef,
+  restricted to the fragment `Ty.Frag` = hereditarily no `Iterable[..]`, no `Data`/`RichData` — i.e. for Any, Undef,
   Default, Scalar, ScalarData, Numeric, Integer, Float, Boolean, Timespan, String (all three forms), Enum, Pattern, Regexp, Binary,
-  Collection, Array, Hash, Tuple, Struct, Variant, Optional, NotUndef, Sensitive, Object, arbitrarily nested.
+  Collection, Array, Hash, Tuple, Struct, Variant, Optional, NotUndef, Sensitive, Object, arbitrarily nested, and `Type[T]` for `T` in
+  the stage-1 fragment of transitivity (`Ty.TF`, see C03: soundness for `Type[..]` IS transitivity `X ⊒ Y ⊒ u`, and is obtained from
+  `C03_trans_partial`); types used as values are then well-formed members of `Ty.TF` (`Val.TyOK`).
 * missing, and why:
-  - `Type[X] ⊒ Type[Y]` and `Iterable`'s instance rule ask assignability questions about the value (`X ⊒ u`, element type): soundness
-    there IS transitivity of `asg` (C03), which is staged.  `Iterable` additionally is genuinely unsound in the code: witnesses
+  - `Type[T]` with Tuple / Struct / Data inside `T` (outside stage 1 of transitivity).  `Iterable`'s instance rule asks an assignability
+    question about an INFERRED type and is genuinely unsound in the code: witnesses
     `C01_full_fails_iterable_elem` (inferred element type wider than any Variant member; known finding C01-iterable-inferred-elem)
     and `C01_full_fails_iterable_binary` (Iterable accepts Binary, whose values are not Iterable instances; C01-iterable-binary).
   - `Data` / `RichData` (built-in recursive aliases): modelled and exercised by the correspondence run, not yet in the proof.
@@ -42,9 +44,9 @@ def C01_full : Prop :=
 
 /-- proved part: the same statement on the fragment `Ty.Frag` -/
 theorem C01_sound_partial (cfg : Cfg) (hl : LowerLen cfg) (a b : Ty) (v : Val)
-    (fa : a.Frag) (fb : b.Frag) (wa : Ty.WF cfg a) (wb : Ty.WF cfg b) (us : b.US) (ok : v.OK)
+    (fa : a.Frag) (fb : b.Frag) (wa : Ty.WF cfg a) (wb : Ty.WF cfg b) (us : b.US) (ok : v.OK) (tv : Val.TyOK cfg v)
     (h : asg cfg false a b = true) (hi : inst cfg false b v = true) : inst cfg false a v = true :=
-  sound_all cfg hl (a.w + b.w) a b v (Nat.le_refl _) ⟨fa, fb, wa, wb, us, ok⟩ h hi
+  sound_all cfg hl (a.w + b.w) a b v (Nat.le_refl _) ⟨fa, fb, wa, wb, us, ok, tv⟩ h hi
 
 /-- the test "accepts Undef" used by the NotUndef and Struct rules is complete -/
 theorem C01_undef_complete (cfg : Cfg) (sfh : Bool) (b : Ty) (h : inst cfg sfh b .undef = true) :
@@ -52,17 +54,24 @@ theorem C01_undef_complete (cfg : Cfg) (sfh : Bool) (b : Ty) (h : inst cfg sfh b
   inst_undef_complete cfg sfh b.w b (Nat.le_refl _) h
 
 /-! ### non-vacuity: hypotheses of `C01_sound_partial` met by a nested case with `asg` and `inst` both true -/
-def exA : Ty := .array (.variant [.int ⟨0, 9⟩, .optional .str]) ⟨0, 5⟩
-def exB : Ty := .tuple [.int ⟨1, 2⟩, .strVal "a"] none
-def exV : Val := .array [.int 2, .str "a"]
+def exA : Ty := .array (.variant [.int ⟨0, 9⟩, .optional .str, .typ .scalar]) ⟨0, 5⟩
+def exB : Ty := .tuple [.int ⟨1, 2⟩, .strVal "a", .typ .numeric] none
+def exV : Val := .array [.int 2, .str "a", .typ (.int ⟨0, 5⟩)]
 
 example (cfg : Cfg) : exA.Frag ∧ exB.Frag ∧ Ty.WF cfg exA ∧ Ty.WF cfg exB ∧ exB.US := by
-  refine ⟨?_, ?_, ?_, ?_, ?_⟩ <;> simp [exA, exB, Ty.Frag, Ty.WF, Ty.US]
-example : exV.OK := Val.OK.array _ (by intro x hx; simp at hx; rcases hx with rfl | rfl <;> constructor)
+  refine ⟨?_, ?_, ?_, ?_, ?_⟩ <;> simp [exA, exB, Ty.Frag, Ty.TF, Ty.WF, Ty.US]
+example : exV.OK := Val.OK.array _ (by intro x hx; simp at hx; rcases hx with rfl | rfl | rfl <;> constructor)
+example (cfg : Cfg) : Val.TyOK cfg exV :=
+  Val.TyOK.array _ (by
+    intro x hx; simp at hx
+    rcases hx with rfl | rfl | rfl
+    · constructor
+    · constructor
+    · exact Val.TyOK.typ _ (by simp [Ty.TF]) (by simp [Ty.WF]))
 example (cfg : Cfg) : asg cfg false exA exB = true := by
   simp [exA, exB, asg, asgRecv, asgAllR, asgAnyL, sameNullary, Rng.sub, tupleSize, Rng.exact, isStringFamily]
 example (cfg : Cfg) : inst cfg false exB exV = true := by
-  simp [exB, exV, inst, instZip, tupleSize, Rng.exact, Rng.contains]
+  simp [exB, exV, inst, instZip, tupleSize, Rng.exact, Rng.contains, asg, asgRecv, sameNullary]
 
 /-! ### the full statement fails for Iterable: two known findings, with witnesses -/
 def idCfg : Cfg := { rxMatch := fun _ _ => false, lower := id }
